@@ -201,8 +201,10 @@ fn main() {
                 }
                 eligible_worlds += 1;
                 for (ci, cfg) in all_cfgs.iter().enumerate() {
-                    // quick: default/utf8 plus two of the other seven, rotating with the world index
-                    if !thorough && ci != 0 && ci != 1 + (i % 7) && ci != 1 + ((i + 3) % 7) {
+                    // quick (and the per-position name worlds in thorough): default/utf8 plus two
+                    // of the other seven, rotating with the world index; otherwise all eight
+                    let per_position = case.family == "names" && !case.id.ends_with(":all");
+                    if (!thorough || per_position) && ci != 0 && ci != 1 + (i % 7) && ci != 1 + ((i + 3) % 7) {
                         continue;
                     }
                     if cfg.async_all && f.nested_future_or_stream {
@@ -300,8 +302,9 @@ fn main() {
     for ((i, stage), list) in &fails {
         let case = &cases[*i];
         let cfgs: Vec<String> = list.iter().map(|l| l.0.clone()).collect();
-        let cfg_key = if cfgs.len() == tried[i] { "all".to_string() } else { cfgs.join(",") };
-        let key = format!("{}:{}:{}", case.id, stage, cfg_key);
+        // key = world + failing stage; the failing configurations are in `what` / the replay detail
+        let _ = &tried;
+        let key = format!("{}:{}", case.id, stage);
         run.violation(
             &key,
             &format!(
@@ -327,7 +330,7 @@ fn main() {
             "type_families": worlds::type_families(false, false).iter().map(|f| json!({"family": f.0, "types": f.2.len()})).collect::<Vec<_>>(),
             "configurations": all_cfgs.iter().map(|c| c.name()).collect::<Vec<_>>(),
             "corpus_step": corpus_step,
-            "configurations_per_world": if thorough { "all 8" } else { "default/utf8 + 2 rotating" },
+            "configurations_per_world": if thorough { "all 8 (per-position name worlds: default/utf8 + 2 rotating)" } else { "default/utf8 + 2 rotating" },
         },
         "ok": ok,
         "ok_on_derived_async_typed_world": derived_ok,
